@@ -102,11 +102,19 @@ def py_results(cases, cache=False):
         if JOBS > 1 and len(todo) > 64:
             # expensive settings (many operations) first, small chunks: the cost per call ranges from 20 us to 0.1 s
             order = sorted(range(len(todo)), key=lambda i: -_BYKEY[idx[i][1][0]]['obj'].nsymop)
+            # a spread of 96 cheap-to-medium cases runs in this process (line coverage and the value-semantics guard of
+            # check.py observe the parent only), the rest in forked workers
+            tail = order[len(order) // 2:]
+            inproc = tail[::max(1, len(tail) // 96)][:96]
+            ins = set(inproc)
+            pooled = [i for i in order if i not in ins]
             with multiprocessing.get_context('fork').Pool(JOBS) as pool:
-                o2 = pool.map(_py_eval, [todo[i] for i in order], chunksize=max(1, min(64, len(todo) // (JOBS * 32))))
+                o2 = pool.map(_py_eval, [todo[i] for i in pooled], chunksize=max(1, min(64, len(todo) // (JOBS * 32))))
             out = [None] * len(todo)
-            for i, r in zip(order, o2):
+            for i, r in zip(pooled, o2):
                 out[i] = r
+            for i in inproc:
+                out[i] = _py_eval(todo[i])
         else:
             out = [_py_eval(t) for t in todo]
         for (i, ck), r in zip(idx, out):
